@@ -552,7 +552,7 @@ func loc(fset *token.FileSet, pos token.Pos) string {
 	return " at " + fset.Position(pos).String()
 }
 
-const maxCallDepth = 400
+const maxCallDepth = 200
 
 // callSSA interprets a call to function fn with arguments args,
 // and lexical environment env, returning its result.
